@@ -203,39 +203,41 @@ def run(ctx):
     for m in gen_mism:
         violations.append(_gen_violation(m))
 
-    # binding self-check 1: a generated case with a corrupted expectation must be reported by replay
+    # binding self-check 1: corrupted expectations must be reported by replay, a corrupted stream by the
+    # encoder cross-check
     planted = None
     with open(cases_path) as f:
         for ln in f:
-            if ln.startswith('{"kind":"font"') or '"kind":"font"' in ln[:200]:
+            if '"kind":"font"' in ln[:400]:
                 c = json.loads(ln)
-                if c["ch"]["glyf"] == 0 and len(c["fonts"][0]["glyphs"]) >= 2 and c["fonts"][0]["glyphs"][1]["kind"] == "simple":
-                    c["fonts"][0]["glyphs"][1]["pts"][0][0] += 1
-                    # keep the encoder input consistent: the corrupted record is only the expectation,
-                    # so the encoder cross-check must flag it too (xglyf no longer matches)
+                g = c["fonts"][0]["glyphs"]
+                if c["ch"]["glyf"] == 0 and len(g) >= 2 and g[1]["kind"] == "simple":
                     planted = c
                     break
     if planted is None:
         raise vlib.ToolError("no font case to corrupt for the binding self-check")
-    sp, sm = ctx.path("selftest_case.ndjson"), ctx.path("selftest_mism.ndjson")
-    vlib.write_ndjson(sp, [planted])
-    srep = vlib.run_harness(binp, ["replay", sp, sm])
-    if not srep["encoder_disagreements"]:
-        raise vlib.ToolError("binding self-check failed: a glyph moved by one unit was not noticed by the encoder cross-check")
-    # corrupt only the expected metrics: encoder input unchanged in glyf, lsb expectation off by one
-    planted2 = json.loads(json.dumps(planted))
-    planted2["fonts"][0]["glyphs"][1]["pts"][0][0] -= 1
-    vlib.write_ndjson(sp, [dict(planted2, fonts=planted2["fonts"])])
-    base = vlib.run_harness(binp, ["replay", sp, sm])
-    base_m = base["mismatches"]
-    bad = json.loads(json.dumps(planted2))
-    for k in ("xglyf", "xhmtx"):
-        pass
+    bad_pts = json.loads(json.dumps(planted))
+    bad_pts["exp_fonts"] = json.loads(json.dumps(planted["fonts"]))
+    bad_pts["exp_fonts"][0]["glyphs"][1]["pts"][0][0] += 1
+    bad_lsb = json.loads(json.dumps(planted))
+    bad_lsb["exp_fonts"] = json.loads(json.dumps(planted["fonts"]))
+    bad_lsb["exp_fonts"][0]["lsb"][-1] += 1
+    bad_stream = json.loads(json.dumps(planted))
+    bad_stream["xglyf"][0][-1] ^= 1
     bad_vec = {"kind": "u255", "id": ["selftest"], "vec": [{"b": [254, 0], "exp": {"ok": True, "v": 505, "used": 2}}]}
-    vlib.write_ndjson(sp, [bad_vec])
-    s2 = vlib.run_harness(binp, ["replay", sp, sm])
-    if s2["mismatches"] != 1:
-        raise vlib.ToolError("binding self-check failed: replay accepted 255UInt16 <<254, 0>> = 505")
+    sp, sm = ctx.path("selftest_case.ndjson"), ctx.path("selftest_mism.ndjson")
+    vlib.write_ndjson(sp, [planted, bad_pts, bad_lsb, bad_stream, bad_vec])
+    srep = vlib.run_harness(binp, ["replay", sp, sm])
+    got_keys = sorted(_gen_key(m) for m in vlib.read_ndjson(sm))
+    base_keys = sorted(_gen_key(m) for m in gen_mism if m["id"] == planted["id"])
+    extra = list(got_keys)
+    for k in base_keys * 4:
+        if k in extra:
+            extra.remove(k)
+    if not any("Glyph:simple:points" in k for k in extra) or not any("Hmtx:lsb" in k for k in extra) \
+            or "U255:value" not in extra or len(srep["encoder_disagreements"]) != 1:
+        raise vlib.ToolError("binding self-check failed: corrupted cases not all reported (keys %s, encoder cross-check %d)" %
+                             (extra, len(srep["encoder_disagreements"])))
 
     # ---- impl -> spec
     trace = ctx.path("trace.ndjson")
